@@ -373,6 +373,270 @@ def check_chain(ctx, fsmod, worlds, members, chain, queries, folders, desc, buil
                         f'with the first member\'s content: {sorted(want.items())}', {'chain': desc, 'folder': d, 'build': build})
 
 
+# ----------------------------------------------------------------------------------------- chains as histories
+
+def chain_oracle(worlds, members):
+    """What the statement of the property demands of a chain whose members are `members` NOW (V/Z/P members only):
+    -> (want_lookup(q), want_walk(d), prefix_case_differs) or None when a directory member is present."""
+    if any(k == 'R' for k, _, _ in members):
+        return None
+    sets, differs = [], False
+    for kind, wi, pf in members:
+        w = worlds[wi]
+        p = norm_folder(pf).casefold()
+        sets.append((p, {n.casefold(): i for n, i in zip(w.names, w.ids)}))
+        if any(d != norm_folder(pf) and d.casefold() == p for d in folders_of(w.names)):
+            differs = True
+
+    def want_lookup(q):
+        fq = q.replace('\\', '/').casefold()
+        for p, by in sets:
+            full = (p + '/' + fq) if p else fq
+            if full in by:
+                return by[full]
+        return None
+
+    def want_walk(d):
+        fd = norm_folder(d).casefold()
+        want = {}
+        for p, by in sets:
+            full = '/'.join(x for x in (p, fd) if x)
+            for n, i in by.items():
+                if in_folder(full, n) and in_folder(p, n):
+                    want.setdefault(n[len(p) + 1:] if p else n, i)
+        return sorted(want.items())
+    return want_lookup, want_walk, differs
+
+
+def gen_history(ctx, worlds, rng):
+    """One operation history for ONE chain object (starting empty).
+    ops: ['add', kind, world index, prefix, priority] ['pop', i] ['lookup', q] ['in', q] ['walk', d] ['walkrep', d]"""
+    def cand():
+        wi = rng.randrange(len(worlds))
+        w = worlds[wi]
+        kind = rng.choice(w.kinds())
+        ds = folders_of(w.names)
+        pf = ''
+        if ds and rng.random() < 0.45:
+            pf = rng.choice(ds)
+            x = rng.random()
+            if x < 0.15:
+                pf = pf.swapcase()
+            elif x < 0.3:
+                pf += '/'
+            elif x < 0.4:
+                pf = pf.replace('/', '\\')
+        return (kind, wi, pf)
+
+    def rel_names(c):
+        kind, wi, pf = c
+        p = norm_folder(pf).casefold()
+        out = []
+        for n in worlds[wi].names:
+            if in_folder(p, n.casefold()):
+                out.append(n[len(p) + 1:] if p else n)
+        return out
+    cands = [cand() for _ in range(rng.randrange(2, 6))]
+    qpool = []
+    for c in cands:
+        for n in rel_names(c)[:3]:
+            qpool.append(rng.choice([n, n, n.swapcase(), n.replace('/', '\\')]))
+    qpool = (qpool or ['a']) + ['nope.txt']
+    rng.shuffle(qpool)
+    qpool = qpool[:6]
+    dpool = [''] + [d for q in qpool for d in folders_of([q.replace('\\', '/')])][:3]
+    ops, inchain = [], []
+    for _ in range(rng.randrange(0, 3)):
+        c = rng.choice(cands)
+        pr = rng.random() < 0.3
+        ops.append(['add', c[0], c[1], c[2], pr])
+        inchain.insert(0, c) if pr else inchain.append(c)
+    for _ in range(rng.randrange(8, 22)):
+        x = rng.random()
+        if x < 0.22:
+            # the pattern "ask, then add a member that has it, then ask again with the same spelling"
+            c = rng.choice(cands)
+            names = rel_names(c)
+            q = rng.choice(names) if names and rng.random() < 0.8 else rng.choice(qpool)
+            if rng.random() < 0.3:
+                q = q.swapcase()
+            pr = rng.random() < 0.35
+            ask = rng.choice(['lookup', 'lookup', 'in'])
+            ops += [[ask, q], ['add', c[0], c[1], c[2], pr], [rng.choice(['lookup', 'lookup', 'in']), q]]
+            inchain.insert(0, c) if pr else inchain.append(c)
+            if rng.random() < 0.4:
+                i = 0 if pr else len(inchain) - 1
+                ops += [['pop', i], ['lookup', q]]
+                inchain.pop(i)
+        elif x < 0.62:
+            ops.append([rng.choice(['lookup', 'lookup', 'lookup', 'in']), rng.choice(qpool)])
+        elif x < 0.74:
+            c = rng.choice(cands)
+            pr = rng.random() < 0.5
+            ops.append(['add', c[0], c[1], c[2], pr])
+            inchain.insert(0, c) if pr else inchain.append(c)
+        elif x < 0.84:
+            i = rng.choice([0, 0, 0, len(inchain) - 1, rng.randrange(0, 5)])
+            if i < 0:
+                i = 0
+            ops.append(['pop', i])
+            if i < len(inchain):
+                inchain.pop(i)
+        elif x < 0.94:
+            ops.append(['walk', rng.choice(dpool)])
+        else:
+            ops.append(['walkrep', rng.choice(dpool)])
+    return ops
+
+
+def run_history(fsmod, worlds, ops, on_witness=None, ctx=None):
+    """Execute `ops` on one FileSystemChain. Returns the observations in the driver's shape. At every query the direct
+    statement of the property is evaluated against the member list as it is NOW; on_witness(key, what, step, op)."""
+    chain = fsmod.FileSystemChain()
+    members = []          # the trivial list model of add_sys / systems.pop
+    obs = []
+    for step, op in enumerate(ops):
+        tag = op[0]
+        if tag == 'add':
+            _, kind, wi, pf, pr = op
+            chain.add_sys(worlds[wi].fs[kind], pf, priority=pr)
+            members.insert(0, (kind, wi, pf)) if pr else members.append((kind, wi, pf))
+            obs.append('done')
+            continue
+        if tag == 'pop':
+            try:
+                chain.systems.pop(op[1])
+                obs.append('done')
+            except IndexError:
+                obs.append('poperror')
+            if op[1] < len(members):
+                members.pop(op[1])
+            continue
+        orc = chain_oracle(worlds, members)
+        desc = [[k, worlds[wi].names, pf] for k, wi, pf in members]
+        if tag in ('lookup', 'in'):
+            q = op[1]
+            if tag == 'lookup':
+                r, extra = obs_lookup(fsmod, chain, q)
+                if extra and on_witness:
+                    on_witness('chain-lookup', f'history step {step}: chain[{q!r}], {q!r} in chain and chain.open_bin({q!r}) are inconsistent: {extra}', step, op)
+                got = r[1] if isinstance(r, list) else None
+            else:
+                try:
+                    r = bool(q in chain)
+                except Exception as e:
+                    r = _err(e, fsmod)
+                got = r
+            obs.append(r)
+            if orc and on_witness:
+                want = orc[0](q)
+                bad = (got != want) if tag == 'lookup' else (got != (want is not None))
+                if bad:
+                    on_witness('chain-lookup', f'history step {step}: after {short_ops(ops[:step])} the chain {desc} answers {tag}({q!r}) = {short(r)}, '
+                               f'but the first member that has it now gives content id {want}', step, op)
+        else:
+            d = op[1]
+            if tag == 'walk':
+                w = obs_walk(fsmod, chain, d)
+            else:
+                class _R:
+                    def __init__(s, c): s.c = c
+                    def walk_folder(s, f): return s.c.walk_folder_repeat(f)
+                w = obs_walk(fsmod, _R(chain), d)
+            obs.append(w)
+            if orc and on_witness and tag == 'walk':
+                want = orc[1](d)
+                got = sorted((uncodes(x[0]).casefold(), x[1]) for x in w) if isinstance(w, list) else w
+                if got != want:
+                    on_witness('chain-walk-prefix-case' if orc[2] else 'chain-walk',
+                               f'history step {step}: after {short_ops(ops[:step])} the chain {desc} lists walk_folder({d!r}) = {got}, expected {want}', step, op)
+    return obs
+
+
+def short_ops(ops):
+    return [op if op[0] != 'add' else ['add', op[1], f'set{op[2]}', op[3], 'priority' if op[4] else 'append'] for op in ops
+            if op[0] in ('add', 'pop') or True][-8:]
+
+
+def hist_input(worlds, ops, step=None):
+    used = sorted({op[2] for op in ops if op[0] == 'add'})
+    remap = {wi: j for j, wi in enumerate(used)}
+    return {'history': {'sets': [worlds[wi].names for wi in used],
+                        'ops': [[op[0], op[1], remap[op[2]], op[3], op[4]] if op[0] == 'add' else list(op) for op in ops]},
+            'step': step}
+
+
+def run_histories(ctx, drv, fsmod):
+    rng = ctx.rng
+    base = os.path.realpath(tempfile.mkdtemp(prefix='c19h_'))
+    cwd0 = os.getcwd()
+    os.chdir(base)
+    reqs, pend = [], []
+    try:
+        next_id = 0
+        for bi in range(ctx.budget(30, 250)):
+            worlds = []
+            tries = 0
+            while len(worlds) < 4 and tries < 40:
+                tries += 1
+                names = []
+                for _ in range(rng.randrange(1, 6)):
+                    if rng.random() < 0.5:
+                        names.append(rng.choice(UNIVERSE))
+                    else:
+                        d = [rng.choice(DIRS) for _ in range(rng.choice([0, 1, 1, 2]))]
+                        names.append('/'.join(d + [rng.choice(LEAVES)]))
+                    if len(set(names)) != len(names) or not ok_set(names):
+                        names.pop()
+                if not names:
+                    continue
+                ids = list(range(next_id, next_id + len(names)))
+                next_id += len(names)
+                worlds.append(World(fsmod, base, f'h{bi}_{len(worlds)}', names, ids, True))
+            for hi in range(ctx.budget(8, 12)):
+                ops = gen_history(ctx, worlds, rng)
+
+                def on_witness(key, what, step, op, ops=ops, worlds=worlds):
+                    if key == 'chain-walk-prefix-case':
+                        ctx.count('chain:walk:open-finding-prefix-case')
+                        if ctx.hist['chain:walk:open-finding-prefix-case'] > 3:
+                            return
+                    ctx.witness(key, what, hist_input(worlds, ops[:step + 1], step))
+                obs = run_history(fsmod, worlds, ops, on_witness)
+                for op in ops:
+                    ctx.count('history:op:' + op[0] + ((':priority' if op[4] else ':append') if op[0] == 'add' else ''))
+                ctx.count('history:len=%d0s' % (len(ops) // 10))
+                ctx.case({'history': hist_input(worlds, ops)['history']}, nontrivial=True, sample_every=401)
+                ctx.evaluations += len(ops) - 1
+                texts = [n for w in worlds for n in w.names] + [op[1] for op in ops if op[0] not in ('add', 'pop')] + [op[3] for op in ops if op[0] == 'add']
+                reqs.append({'op': 'hist', 'fold': fold_table(texts), 'cwd': codes(base), 'cfg': None,
+                             'sets': [{'files': [[codes(n), i] for n, i in zip(w.names, w.ids)], 'root': codes(w.root)} for w in worlds],
+                             'ops': [[op[0], op[1], op[2], codes(op[3]), op[4]] if op[0] == 'add' else
+                                     ['pop', op[1]] if op[0] == 'pop' else
+                                     ['lookup' if op[0] == 'in' else op[0], codes(op[1])] for op in ops]})
+                pend.append(([w.names for w in worlds], ops, obs))
+            for w in worlds:
+                w.close()
+    finally:
+        os.chdir(cwd0)
+        shutil.rmtree(base, ignore_errors=True)
+    if drv is None:
+        return
+    for (names, ops, obs), rep in zip(pend, drv.batch(reqs)):
+        ctx.traces_vs_impl += 1
+        if isinstance(rep, dict) and 'error' in rep:
+            ctx.disagree({'sets': names, 'ops': ops}, None, rep['error'], 'driver error')
+            continue
+        for step, (op, a, b) in enumerate(zip(ops, obs, rep)):
+            if op[0] == 'in':
+                b = 'escape' if b == 'escape' else (b != 'notfound')
+            elif op[0] in ('walk', 'walkrep'):
+                b = canon_walk(b)
+            if a != b:
+                ctx.disagree({'sets': names, 'ops': ops[:step + 1]}, short(a), short(b), f'history step {step}: {op[0]}')
+                break
+
+
 # ----------------------------------------------------------------------------------------- main flow
 
 def run_all(ctx, drv, fsmod):
@@ -575,6 +839,7 @@ def correspond(ctx, drivers):
     ctx.extra['walk_cfg_in_source'] = dict(zip(['virtRootFix', 'sepMatch', 'foldMatch'], cfg))
     run_all(ctx, drv, fsmod)
     run_dups(ctx, drv, fsmod)
+    run_histories(ctx, drv, fsmod)
     ctx.extra['_ran'] = True
 
 
@@ -584,16 +849,66 @@ def search(ctx):
     import srctools.filesys as fsmod
     if not ctx.extra.pop('_ran', False):
         run_all(ctx, None, fsmod)
+        run_histories(ctx, None, fsmod)
     # order witnesses: smallest set first
     def size(w):
         i = w['input']
         s = i.get('set', {}).get('names') if isinstance(i.get('set'), dict) else None
         return (len(s) if s else 99, len(str(i)))
     ctx.witnesses.sort(key=size)
+    shrink_history(ctx, fsmod)
+
+
+def _history_fails(fsmod, hist):
+    """-> list of (key, what, step) the history produces on the implementation."""
+    base = os.path.realpath(tempfile.mkdtemp(prefix='c19hr_'))
+    cwd0 = os.getcwd()
+    os.chdir(base)
+    out = []
+    try:
+        worlds, nid = [], 0
+        for j, names in enumerate(hist['sets']):
+            worlds.append(World(fsmod, base, j, names, list(range(nid, nid + len(names))), all(ord(ch) < 128 for n in names for ch in n)))
+            nid += len(names)
+        ops = [op for op in hist['ops'] if op[0] != 'add' or op[1] in worlds[op[2]].fs]
+        run_history(fsmod, worlds, ops, lambda key, what, step, op: out.append((key, what, step)))
+        for w in worlds:
+            w.close()
+    finally:
+        os.chdir(cwd0)
+        shutil.rmtree(base, ignore_errors=True)
+    return out
+
+
+def shrink_history(ctx, fsmod):
+    """ddmin over the operations of the first history witness that is not the open finding."""
+    from common import ddmin
+    for w in ctx.witnesses:
+        inp = w['input']
+        if 'history' in inp and w['key'] != 'chain-walk-prefix-case':
+            hist = inp['history']
+            key = w['key']
+            fails = lambda ops: any(k == key for k, _, _ in _history_fails(fsmod, {'sets': hist['sets'], 'ops': ops}))
+            if fails(hist['ops']):
+                small = ddmin(hist['ops'], fails, budget=120)
+                res = [x for x in _history_fails(fsmod, {'sets': hist['sets'], 'ops': small}) if x[0] == key]
+                inp['shrunk_ops'] = small
+                if res:
+                    w['what'] += f' (shrunk history: {small}: {res[0][1]})'
+            break
 
 
 def _replay_input(fsmod, inp, verbose=False):
     """True = property holds on this input."""
+    if 'history' in inp:
+        hist = dict(inp['history'])
+        if inp.get('shrunk_ops'):
+            hist['ops'] = inp['shrunk_ops']
+        res = [x for x in _history_fails(fsmod, hist) if x[0] != 'chain-walk-prefix-case' or inp.get('key') == 'chain-walk-prefix-case']
+        if verbose:
+            for k, what, step in res:
+                print(what)
+        return not res
     class C:  # a throw-away collector with the Ctx.witness interface
         def __init__(s): s.w = []
         def witness(s, key, what, i): s.w.append((key, what))
@@ -635,7 +950,7 @@ def _replay_input(fsmod, inp, verbose=False):
 def replay(ctx, payload):
     import srctools.filesys as fsmod
     inp = payload.get('input') or {}
-    if 'set' not in inp and 'chain' not in inp:
+    if 'set' not in inp and 'chain' not in inp and 'history' not in inp:
         print('replay file names a broken obligation/correspondence, no input to replay:', payload.get('broken_obligations') or payload.get('broken'),
               payload.get('disagreements', [])[:1])
         return False
